@@ -246,6 +246,11 @@ def gen_op(rng, tree: TreeModel, classes, swarm, recent=None):
             else:
                 name = rng.choice(NAMES if skind == "f" else DIRNAMES) + (".py" if skind == "f" else "")
             dst = f"{parent}/{name}" if parent else name
+            grave = [g for g in swarm.get("_graveyard", []) if not tree.exists(g) and tree.is_dir(parent_of(g))
+                     and g != src and not is_under(g, src)]
+            if grave and skind == "f" and rng.random() < 0.4:
+                # re-occupy the path of something removed earlier
+                dst, into = rng.choice(grave), False
             if tree.exists(dst) or dst == src:
                 continue
             return ["move", src, dst, skind, into]
@@ -334,6 +339,8 @@ def gen_changeset(rng, tree: TreeModel, classes, swarm, ident, max_ops=None, all
             break
         ops.append(op)
         for f in _flat(op):
+            if f[0] == "remove" and f[2] == "f":
+                swarm.setdefault("_graveyard", []).append(f[1])
             if f[0] == "move":
                 recent.extend([f[2]])
                 _move_classes(cls, f[1], f[2])
